@@ -120,22 +120,28 @@ theorem vCfg_conf {I : Impl} (hI : I.cfgNoneOk = false) {c : Nat} {v w : PyVal} 
   · simp at h
 
 mutual
-theorem validate_sound_aux (I : Impl) (h1 : I.unionDictNone = false) (h2 : I.cfgNoneOk = false) :
-    ∀ (t : Ty) (v w : PyVal), validate I t v = .ok w → conforms t w = true
-  | .bool, v, w, h => by simp [validate] at h; subst h; simp [conforms]
-  | .int, v, w, h => by simp only [validate] at h; exact vInt_conf h
-  | .float, v, w, h => by simp only [validate] at h; exact vFloat_conf h
-  | .str, v, w, h => by simp only [validate] at h; exact vStr_conf h
-  | .path, v, w, h => by simp only [validate] at h; exact vPath_conf h
-  | .enum c, v, w, h => by simp only [validate] at h; exact vEnum_conf h
-  | .cfg c, v, w, h => by simp only [validate] at h; exact vCfg_conf h2 h
-  | .any, v, w, h => by simp [conforms]
-  | .opt t, v, w, h => by
+/-- soundness, with the two switches needed only where the type mentions a union / a configuration class -/
+theorem validate_sound_aux (I : Impl) :
+    ∀ (t : Ty), (I.unionDictNone = false ∨ t.unionFree = true) → (I.cfgNoneOk = false ∨ t.cfgFree = true) →
+      ∀ (v w : PyVal), validate I t v = .ok w → conforms t w = true
+  | .bool, _, _, v, w, h => by simp [validate] at h; subst h; simp [conforms]
+  | .int, _, _, v, w, h => by simp only [validate] at h; exact vInt_conf h
+  | .float, _, _, v, w, h => by simp only [validate] at h; exact vFloat_conf h
+  | .str, _, _, v, w, h => by simp only [validate] at h; exact vStr_conf h
+  | .path, _, _, v, w, h => by simp only [validate] at h; exact vPath_conf h
+  | .enum c, _, _, v, w, h => by simp only [validate] at h; exact vEnum_conf h
+  | .cfg c, _, h2, v, w, h => by
+    simp only [validate] at h
+    exact vCfg_conf (h2.resolve_right (by simp [Ty.cfgFree])) h
+  | .any, _, _, v, w, h => by simp [conforms]
+  | .opt t, h1, h2, v, w, h => by
     rw [conforms_opt]
     cases v with
     | none => simp [validate] at h; subst h; simp
-    | _ => simp only [validate] at h; simp [validate_sound_aux I h1 h2 t _ w h]
-  | .list t, v, w, h => by
+    | _ =>
+      simp only [validate] at h
+      simp [validate_sound_aux I t (h1.imp_right (by simp [Ty.unionFree])) (h2.imp_right (by simp [Ty.cfgFree])) _ w h]
+  | .list t, h1, h2, v, w, h => by
     cases v with
     | list vs =>
       simp only [validate] at h
@@ -144,10 +150,11 @@ theorem validate_sound_aux (I : Impl) (h1 : I.unionDictNone = false) (h2 : I.cfg
       | ok ws =>
         simp only [hm, Except.ok.injEq] at h
         subst h
-        have := mapE_ok_all (P := fun y => conforms t y = true) vs ws hm (fun x _ y hy => validate_sound_aux I h1 h2 t x y hy)
+        have := mapE_ok_all (P := fun y => conforms t y = true) vs ws hm
+          (fun x _ y hy => validate_sound_aux I t (h1.imp_right (by simp [Ty.unionFree])) (h2.imp_right (by simp [Ty.cfgFree])) x y hy)
         simpa [conforms, List.all_eq_true] using this
     | _ => simp [validate] at h
-  | .dict t, v, w, h => by
+  | .dict t, h1, h2, v, w, h => by
     cases v with
     | dict ks vs =>
       simp only [validate] at h
@@ -156,36 +163,40 @@ theorem validate_sound_aux (I : Impl) (h1 : I.unionDictNone = false) (h2 : I.cfg
       | ok ws =>
         simp only [hm, Except.ok.injEq] at h
         subst h
-        have := mapD_ok_all (P := fun y => conforms t y = true) ks vs ws hm (fun x _ y hy => validate_sound_aux I h1 h2 t x y hy)
+        have := mapD_ok_all (P := fun y => conforms t y = true) ks vs ws hm
+          (fun x _ y hy => validate_sound_aux I t (h1.imp_right (by simp [Ty.unionFree])) (h2.imp_right (by simp [Ty.cfgFree])) x y hy)
         simp only [conforms, Bool.and_eq_true, beq_iff_eq, List.all_eq_true]
         exact ⟨⟨this.1, by simpa [List.all_eq_true] using this.2.1⟩, this.2.2⟩
     | _ => simp [validate] at h
-  | .union ts, v, w, h => by
+  | .union ts, h1, h2, v, w, h => by
+    have h1' : I.unionDictNone = false := h1.resolve_right (by simp [Ty.unionFree])
     simp only [validate] at h
     cases hu : validateU I ts v with
     | some r =>
       simp only [hu] at h
       subst h
       simp only [conforms]
-      exact validateU_sound_aux I h1 h2 ts v w hu
-    | none => simp [hu, h1] at h
-theorem validateU_sound_aux (I : Impl) (h1 : I.unionDictNone = false) (h2 : I.cfgNoneOk = false) :
-    ∀ (ts : List Ty) (v w : PyVal), validateU I ts v = some (.ok w) → conformsAny ts w = true
-  | [], v, w, h => by simp [validateU] at h
-  | t :: ts, v, w, h => by
+      exact validateU_sound_aux I h1' ts (h2.imp_right (by simp [Ty.cfgFree])) v w hu
+    | none => simp [hu, h1'] at h
+theorem validateU_sound_aux (I : Impl) (h1 : I.unionDictNone = false) :
+    ∀ (ts : List Ty), (I.cfgNoneOk = false ∨ Ty.cfgFreeAll ts = true) →
+      ∀ (v w : PyVal), validateU I ts v = some (.ok w) → conformsAny ts w = true
+  | [], _, v, w, h => by simp [validateU] at h
+  | t :: ts, h2, v, w, h => by
     simp only [validateU] at h
     simp only [conformsAny, Bool.or_eq_true]
     cases hv : validate I t v with
     | ok w' =>
       simp only [hv, Option.some.injEq, Except.ok.injEq] at h
       subst h
-      exact Or.inl (validate_sound_aux I h1 h2 t v w' hv)
+      exact Or.inl (validate_sound_aux I t (Or.inl h1) (h2.imp_right (by simp [Ty.cfgFreeAll]; exact fun a _ => a)) v w' hv)
     | error e =>
       cases e with
-      | invalid => simp only [hv] at h; exact Or.inr (validateU_sound_aux I h1 h2 ts v w h)
+      | invalid =>
+        simp only [hv] at h
+        exact Or.inr (validateU_sound_aux I h1 ts (h2.imp_right (by simp [Ty.cfgFreeAll])) v w h)
       | _ => simp [hv] at h
 end
-
 
 /-! ### conforming values pass unchanged -/
 
@@ -480,5 +491,591 @@ theorem unv_le (N : Nat) (vis : List Nat) : unv N vis ≤ N := by
   simpa using this
 
 end walk
+
+/-! ### unions: the first alternative that accepts decides, and it returns an equal value -/
+
+mutual
+/-- no float anywhere in a list/dict structure -/
+def ffree : PyVal → Bool
+  | .float _ => false
+  | .list vs => ffreeL vs
+  | .dict _ vs => ffreeL vs
+  | _ => true
+def ffreeL : List PyVal → Bool
+  | [] => true
+  | v :: vs => ffree v && ffreeL vs
+end
+
+theorem ffreeL_mem : ∀ (vs : List PyVal), ffreeL vs = true → ∀ x ∈ vs, ffree x = true
+  | [], _, x, hx => by simp at hx
+  | v :: vs, h, x, hx => by
+    simp only [ffreeL, Bool.and_eq_true] at h
+    rcases List.mem_cons.mp hx with rfl | hx
+    · exact h.1
+    · exact ffreeL_mem vs h.2 x hx
+
+theorem ffreeL_of_all : ∀ (vs : List PyVal), (∀ x ∈ vs, ffree x = true) → ffreeL vs = true
+  | [], _ => by simp [ffreeL]
+  | v :: vs, h => by
+    simp [ffreeL, h v (List.mem_cons_self), ffreeL_of_all vs (fun x hx => h x (List.mem_cons_of_mem _ hx))]
+
+mutual
+theorem alt_ffree : ∀ (t : Ty), t.alt = true → ∀ (v : PyVal), conforms t v = true → ffree v = true
+  | .int, _, v, hc => by cases v <;> simp [conforms] at hc <;> simp [ffree]
+  | .str, _, v, hc => by cases v <;> simp [conforms] at hc; simp [ffree]
+  | .enum c, _, v, hc => by cases v <;> simp [conforms] at hc; simp [ffree]
+  | .cfg c, _, v, hc => by cases v <;> simp [conforms] at hc; simp [ffree]
+  | .list t, ha, v, hc => by
+    cases v with
+    | list vs =>
+      simp only [conforms, List.all_eq_true] at hc
+      simp only [ffree]
+      exact ffreeL_of_all vs (fun x hx => alt_ffree t (by simpa [Ty.alt] using ha) x (hc x hx))
+    | _ => simp [conforms] at hc
+  | .dict t, ha, v, hc => by
+    cases v with
+    | dict ks vs =>
+      simp only [conforms, Bool.and_eq_true, List.all_eq_true] at hc
+      simp only [ffree]
+      exact ffreeL_of_all vs (fun x hx => alt_ffree t (by simpa [Ty.alt] using ha) x (hc.2 x hx))
+    | _ => simp [conforms] at hc
+  | .union ts, ha, v, hc => by
+    simp only [conforms] at hc
+    exact altAll_ffree ts (by simpa [Ty.alt] using ha) v hc
+  | .bool, ha, _, _ => by simp [Ty.alt] at ha
+  | .float, ha, _, _ => by simp [Ty.alt] at ha
+  | .path, ha, _, _ => by simp [Ty.alt] at ha
+  | .opt _, ha, _, _ => by simp [Ty.alt] at ha
+  | .any, ha, _, _ => by simp [Ty.alt] at ha
+theorem altAll_ffree : ∀ (ts : List Ty), Ty.altAll ts = true → ∀ (v : PyVal), conformsAny ts v = true → ffree v = true
+  | [], _, v, hc => by simp [conformsAny] at hc
+  | t :: ts, ha, v, hc => by
+    simp only [Ty.altAll, Bool.and_eq_true] at ha
+    simp only [conformsAny, Bool.or_eq_true] at hc
+    rcases hc with hc | hc
+    · exact alt_ffree t ha.1 v hc
+    · exact altAll_ffree ts ha.2 v hc
+end
+
+theorem mapE_err {f : PyVal → Except Err PyVal} {e : Err} :
+    ∀ (vs : List PyVal), mapE f vs = .error e → ∃ x ∈ vs, f x = .error e
+  | [], h => by simp [mapE] at h
+  | v :: vs, h => by
+    simp only [mapE] at h
+    cases hv : f v with
+    | error e' => simp only [hv, Except.error.injEq] at h; subst h; exact ⟨v, List.mem_cons_self, hv⟩
+    | ok w =>
+      simp only [hv] at h
+      cases hr : mapE f vs with
+      | error e' =>
+        simp only [hr, Except.error.injEq] at h; subst h
+        obtain ⟨x, hx, hfx⟩ := mapE_err vs hr
+        exact ⟨x, List.mem_cons_of_mem _ hx, hfx⟩
+      | ok ws => simp [hr] at h
+
+theorem mapD_err {f : PyVal → Except Err PyVal} {e : Err} :
+    ∀ (ks : List Key) (vs : List PyVal), mapD f ks vs = .error e → e = .invalid ∨ ∃ x ∈ vs, f x = .error e
+  | [], [], h => by simp [mapD] at h
+  | [], _ :: _, h => by simp [mapD] at h; exact Or.inl h.symm
+  | _ :: _, [], h => by simp [mapD] at h; exact Or.inl h.symm
+  | k :: ks, v :: vs, h => by
+    simp only [mapD] at h
+    by_cases hk : keyOk k = true
+    · simp only [hk, if_true] at h
+      cases hv : f v with
+      | error e' => simp only [hv, Except.error.injEq] at h; subst h; exact Or.inr ⟨v, List.mem_cons_self, hv⟩
+      | ok w =>
+        simp only [hv] at h
+        cases hr : mapD f ks vs with
+        | error e' =>
+          simp only [hr, Except.error.injEq] at h; subst h
+          rcases mapD_err ks vs hr with h1 | ⟨x, hx, hfx⟩
+          · exact Or.inl h1
+          · exact Or.inr ⟨x, List.mem_cons_of_mem _ hx, hfx⟩
+        | ok ws => simp [hr] at h
+    · simp [hk] at h; exact Or.inl h.symm
+
+/-- the switch values under which a union behaves as "first alternative that accepts" -/
+def Impl.unionOk (I : Impl) : Prop := I.unionDictNone = false ∧ I.enumAssert = false ∧ I.enumNameFails = false
+
+mutual
+theorem alt_err (I : Impl) (hI : I.unionOk) : ∀ (t : Ty), t.alt = true → ∀ (v : PyVal) (e : Err), ffree v = true →
+    validate I t v = .error e → e = .invalid
+  | .int, _, v, e, hf, h => by
+    simp only [validate] at h
+    cases v <;> simp [vInt, ffree] at h hf <;> exact h.symm
+  | .str, _, v, e, _, h => by
+    simp only [validate] at h
+    cases v <;> simp [vStr] at h <;> exact h.symm
+  | .enum c, _, v, e, _, h => by
+    simp only [validate] at h
+    cases v <;> simp only [vEnum, hI.2.1] at h
+    all_goals (first | (split at h <;> simp at h <;> exact h.symm) | (simp at h; exact h.symm))
+  | .cfg c, _, v, e, _, h => by
+    simp only [validate] at h
+    cases v <;> simp only [vCfg] at h
+    all_goals (first | (split at h <;> simp at h <;> exact h.symm) | (simp at h; exact h.symm))
+  | .list t, ha, v, e, hf, h => by
+    cases v with
+    | list vs =>
+      simp only [validate] at h
+      cases hm : mapE (validate I t) vs with
+      | ok ws => simp [hm] at h
+      | error e' =>
+        simp only [hm, Except.error.injEq] at h; subst h
+        obtain ⟨x, hx, hfx⟩ := mapE_err vs hm
+        exact alt_err I hI t (by simpa [Ty.alt] using ha) x _ (ffreeL_mem vs (by simpa [ffree] using hf) x hx) hfx
+    | _ => simp [validate] at h; exact h.symm
+  | .dict t, ha, v, e, hf, h => by
+    cases v with
+    | dict ks vs =>
+      simp only [validate] at h
+      cases hm : mapD (validate I t) ks vs with
+      | ok ws => simp [hm] at h
+      | error e' =>
+        simp only [hm, Except.error.injEq] at h; subst h
+        rcases mapD_err ks vs hm with h1 | ⟨x, hx, hfx⟩
+        · exact h1
+        · exact alt_err I hI t (by simpa [Ty.alt] using ha) x _ (ffreeL_mem vs (by simpa [ffree] using hf) x hx) hfx
+    | _ => simp [validate] at h; exact h.symm
+  | .union ts, ha, v, e, hf, h => by
+    simp only [validate] at h
+    cases hu : validateU I ts v with
+    | some r =>
+      simp only [hu] at h
+      subst h
+      exact altAll_err I hI ts (by simpa [Ty.alt] using ha) v e hf hu
+    | none =>
+      simp [hu, hI.1, hI.2.2] at h
+      exact h.symm
+  | .bool, ha, _, _, _, _ => by simp [Ty.alt] at ha
+  | .float, ha, _, _, _, _ => by simp [Ty.alt] at ha
+  | .path, ha, _, _, _, _ => by simp [Ty.alt] at ha
+  | .opt _, ha, _, _, _, _ => by simp [Ty.alt] at ha
+  | .any, ha, _, _, _, _ => by simp [Ty.alt] at ha
+theorem altAll_err (I : Impl) (hI : I.unionOk) : ∀ (ts : List Ty), Ty.altAll ts = true → ∀ (v : PyVal) (e : Err), ffree v = true →
+    validateU I ts v = some (.error e) → e = .invalid
+  | [], _, v, e, _, h => by simp [validateU] at h
+  | t :: ts, ha, v, e, hf, h => by
+    simp only [Ty.altAll, Bool.and_eq_true] at ha
+    simp only [validateU] at h
+    cases hv : validate I t v with
+    | ok w => simp [hv] at h
+    | error e' =>
+      have := alt_err I hI t ha.1 v e' hf hv
+      subst this
+      simp only [hv] at h
+      exact altAll_err I hI ts ha.2 v e hf h
+end
+
+
+theorem mapE_rel {f : PyVal → Except Err PyVal} :
+    ∀ (vs ws : List PyVal), mapE f vs = .ok ws → (∀ x ∈ vs, ∀ y, f x = .ok y → pyEq y x = true) → pyEqL ws vs = true
+  | [], ws, h, _ => by simp [mapE] at h; subst h; simp [pyEqL]
+  | v :: vs, ws, h, hp => by
+    simp only [mapE] at h
+    cases hv : f v with
+    | error e => simp [hv] at h
+    | ok w =>
+      simp only [hv] at h
+      cases hr : mapE f vs with
+      | error e => simp [hr] at h
+      | ok ws' =>
+        simp only [hr, Except.ok.injEq] at h
+        subst h
+        simp [pyEqL, hp v (List.mem_cons_self) w hv, mapE_rel vs ws' hr (fun x hx => hp x (List.mem_cons_of_mem _ hx))]
+
+theorem mapD_rel {f : PyVal → Except Err PyVal} :
+    ∀ (ks : List Key) (vs ws : List PyVal), mapD f ks vs = .ok ws → (∀ x ∈ vs, ∀ y, f x = .ok y → pyEq y x = true) → pyEqL ws vs = true
+  | [], [], ws, h, _ => by simp [mapD] at h; subst h; simp [pyEqL]
+  | [], _ :: _, ws, h, _ => by simp [mapD] at h
+  | _ :: _, [], ws, h, _ => by simp [mapD] at h
+  | k :: ks, v :: vs, ws, h, hp => by
+    simp only [mapD] at h
+    by_cases hk : keyOk k = true
+    · simp only [hk, if_true] at h
+      cases hv : f v with
+      | error e => simp [hv] at h
+      | ok w =>
+        simp only [hv] at h
+        cases hr : mapD f ks vs with
+        | error e => simp [hr] at h
+        | ok ws' =>
+          simp only [hr, Except.ok.injEq] at h
+          subst h
+          simp [pyEqL, hp v (List.mem_cons_self) w hv, mapD_rel ks vs ws' hr (fun x hx => hp x (List.mem_cons_of_mem _ hx))]
+    · simp [hk] at h
+
+theorem vInt_eq {v w : PyVal} (h : vInt v = .ok w) : pyEq w v = true := by
+  cases v with
+  | float f =>
+    cases f with
+    | fin n m e =>
+      simp only [vInt] at h
+      split at h
+      · rename_i i hi
+        simp at h; subst h
+        simp [pyEq, numOf, Num.eq, hi]
+      · simp at h
+    | inf n => simp [vInt] at h
+    | nan => simp [vInt] at h
+  | int i => simp [vInt] at h; subst h; exact pyEq_refl _
+  | bool b => simp [vInt] at h; subst h; exact pyEq_refl _
+  | _ => simp [vInt] at h
+
+mutual
+theorem alt_eq (I : Impl) (hI : I.unionOk) : ∀ (t : Ty), t.alt = true → ∀ (v w : PyVal), validate I t v = .ok w → pyEq w v = true
+  | .int, _, v, w, h => by simp only [validate] at h; exact vInt_eq h
+  | .str, _, v, w, h => by
+    simp only [validate] at h
+    cases v <;> simp [vStr] at h
+    subst h; exact pyEq_refl _
+  | .enum c, _, v, w, h => by
+    simp only [validate] at h
+    cases v <;> simp only [vEnum] at h
+    all_goals (first | (split at h <;> simp at h; subst h; exact pyEq_refl _) | (simp at h))
+  | .cfg c, _, v, w, h => by
+    simp only [validate] at h
+    cases v <;> simp only [vCfg] at h
+    all_goals (first | (split at h <;> simp at h; subst h; exact pyEq_refl _) | (simp at h))
+  | .list t, ha, v, w, h => by
+    cases v with
+    | list vs =>
+      simp only [validate] at h
+      cases hm : mapE (validate I t) vs with
+      | error e => simp [hm] at h
+      | ok ws =>
+        simp only [hm, Except.ok.injEq] at h
+        subst h
+        simp only [pyEq]
+        exact mapE_rel vs ws hm (fun x _ y hy => alt_eq I hI t (by simpa [Ty.alt] using ha) x y hy)
+    | _ => simp [validate] at h
+  | .dict t, ha, v, w, h => by
+    cases v with
+    | dict ks vs =>
+      simp only [validate] at h
+      cases hm : mapD (validate I t) ks vs with
+      | error e => simp [hm] at h
+      | ok ws =>
+        simp only [hm, Except.ok.injEq] at h
+        subst h
+        simp only [pyEq, Bool.and_eq_true, beq_self_eq_true, true_and]
+        exact mapD_rel ks vs ws hm (fun x _ y hy => alt_eq I hI t (by simpa [Ty.alt] using ha) x y hy)
+    | _ => simp [validate] at h
+  | .union ts, ha, v, w, h => by
+    simp only [validate] at h
+    cases hu : validateU I ts v with
+    | some r =>
+      simp only [hu] at h
+      subst h
+      exact altAll_eq I hI ts (by simpa [Ty.alt] using ha) v w hu
+    | none => simp [hu, hI.1] at h
+  | .bool, ha, _, _, _ => by simp [Ty.alt] at ha
+  | .float, ha, _, _, _ => by simp [Ty.alt] at ha
+  | .path, ha, _, _, _ => by simp [Ty.alt] at ha
+  | .opt _, ha, _, _, _ => by simp [Ty.alt] at ha
+  | .any, ha, _, _, _ => by simp [Ty.alt] at ha
+theorem altAll_eq (I : Impl) (hI : I.unionOk) : ∀ (ts : List Ty), Ty.altAll ts = true → ∀ (v w : PyVal),
+    validateU I ts v = some (.ok w) → pyEq w v = true
+  | [], _, v, w, h => by simp [validateU] at h
+  | t :: ts, ha, v, w, h => by
+    simp only [Ty.altAll, Bool.and_eq_true] at ha
+    simp only [validateU] at h
+    cases hv : validate I t v with
+    | ok w' =>
+      simp only [hv, Option.some.injEq, Except.ok.injEq] at h
+      subst h
+      exact alt_eq I hI t ha.1 v w' hv
+    | error e =>
+      cases e with
+      | invalid => simp only [hv] at h; exact altAll_eq I hI ts ha.2 v w h
+      | _ => simp [hv] at h
+end
+
+mutual
+theorem alt_unionDom : ∀ (t : Ty), t.alt = true → t.unionDom = true
+  | .list t, h => by simpa [Ty.unionDom] using alt_unionDom t (by simpa [Ty.alt] using h)
+  | .dict t, h => by simpa [Ty.unionDom] using alt_unionDom t (by simpa [Ty.alt] using h)
+  | .union ts, h => by simpa [Ty.unionDom, Ty.alt] using h
+  | .int, _ => rfl
+  | .str, _ => rfl
+  | .enum _, _ => rfl
+  | .cfg _, _ => rfl
+  | .bool, _ => rfl
+  | .float, _ => rfl
+  | .path, _ => rfl
+  | .any, _ => rfl
+  | .opt _, h => by simp [Ty.alt] at h
+end
+
+theorem mapE_ex {f : PyVal → Except Err PyVal} :
+    ∀ (vs : List PyVal), (∀ x ∈ vs, ∃ y, f x = .ok y ∧ pyEq y x = true) → ∃ ws, mapE f vs = .ok ws ∧ pyEqL ws vs = true
+  | [], _ => ⟨[], by simp [mapE], by simp [pyEqL]⟩
+  | v :: vs, h => by
+    obtain ⟨y, hy, he⟩ := h v (List.mem_cons_self)
+    obtain ⟨ws, hws, hes⟩ := mapE_ex vs (fun x hx => h x (List.mem_cons_of_mem _ hx))
+    exact ⟨y :: ws, by simp [mapE, hy, hws], by simp [pyEqL, he, hes]⟩
+
+theorem mapD_ex {f : PyVal → Except Err PyVal} :
+    ∀ (ks : List Key) (vs : List PyVal), ks.length = vs.length → ks.all keyOk = true →
+      (∀ x ∈ vs, ∃ y, f x = .ok y ∧ pyEq y x = true) → ∃ ws, mapD f ks vs = .ok ws ∧ pyEqL ws vs = true
+  | [], [], _, _, _ => ⟨[], by simp [mapD], by simp [pyEqL]⟩
+  | [], _ :: _, hl, _, _ => by simp at hl
+  | _ :: _, [], hl, _, _ => by simp at hl
+  | k :: ks, v :: vs, hl, hk, h => by
+    simp only [List.all_cons, Bool.and_eq_true] at hk
+    simp only [List.length_cons, Nat.add_right_cancel_iff] at hl
+    obtain ⟨y, hy, he⟩ := h v (List.mem_cons_self)
+    obtain ⟨ws, hws, hes⟩ := mapD_ex ks vs hl hk.2 (fun x hx => h x (List.mem_cons_of_mem _ hx))
+    exact ⟨y :: ws, by simp [mapD, hk.1, hy, hws], by simp [pyEqL, he, hes]⟩
+
+mutual
+theorem conf_union (I : Impl) (hI : I.unionOk) : ∀ (t : Ty), t.unionDom = true → ∀ (v : PyVal), conforms t v = true →
+    ∃ w, validate I t v = .ok w ∧ pyEq w v = true
+  | .bool, _, v, hc => ⟨v, validate_id_aux I .bool rfl v hc, pyEq_refl v⟩
+  | .int, _, v, hc => ⟨v, validate_id_aux I .int rfl v hc, pyEq_refl v⟩
+  | .float, _, v, hc => ⟨v, validate_id_aux I .float rfl v hc, pyEq_refl v⟩
+  | .str, _, v, hc => ⟨v, validate_id_aux I .str rfl v hc, pyEq_refl v⟩
+  | .path, _, v, hc => ⟨v, validate_id_aux I .path rfl v hc, pyEq_refl v⟩
+  | .enum c, _, v, hc => ⟨v, validate_id_aux I (.enum c) rfl v hc, pyEq_refl v⟩
+  | .cfg c, _, v, hc => ⟨v, validate_id_aux I (.cfg c) rfl v hc, pyEq_refl v⟩
+  | .any, _, v, hc => ⟨v, validate_id_aux I .any rfl v hc, pyEq_refl v⟩
+  | .opt t, hd, v, hc => by
+    rw [conforms_opt] at hc
+    cases v with
+    | none => exact ⟨.none, by simp [validate], pyEq_refl _⟩
+    | _ =>
+      simp only [validate]
+      exact conf_union I hI t (by simpa [Ty.unionDom] using hd) _ (by simpa using hc)
+  | .list t, hd, v, hc => by
+    cases v with
+    | list vs =>
+      simp only [conforms, List.all_eq_true] at hc
+      obtain ⟨ws, hws, hes⟩ := mapE_ex (f := validate I t) vs
+        (fun x hx => conf_union I hI t (by simpa [Ty.unionDom] using hd) x (hc x hx))
+      exact ⟨.list ws, by simp [validate, hws], by simp [pyEq, hes]⟩
+    | _ => simp [conforms] at hc
+  | .dict t, hd, v, hc => by
+    cases v with
+    | dict ks vs =>
+      simp only [conforms, Bool.and_eq_true, beq_iff_eq, List.all_eq_true] at hc
+      obtain ⟨ws, hws, hes⟩ := mapD_ex (f := validate I t) ks vs hc.1.1 (by simpa [List.all_eq_true] using hc.1.2)
+        (fun x hx => conf_union I hI t (by simpa [Ty.unionDom] using hd) x (hc.2 x hx))
+      exact ⟨.dict ks ws, by simp [validate, hws], by simp [pyEq, hes]⟩
+    | _ => simp [conforms] at hc
+  | .union ts, hd, v, hc => by
+    simp only [conforms] at hc
+    obtain ⟨w, hw, he⟩ := conf_unionU I hI ts (by simpa [Ty.unionDom] using hd) v hc
+    exact ⟨w, by simp [validate, hw], he⟩
+theorem conf_unionU (I : Impl) (hI : I.unionOk) : ∀ (ts : List Ty), Ty.altAll ts = true → ∀ (v : PyVal), conformsAny ts v = true →
+    ∃ w, validateU I ts v = some (.ok w) ∧ pyEq w v = true
+  | [], _, v, hc => by simp [conformsAny] at hc
+  | t :: ts, ha, v, hc => by
+    have hff := altAll_ffree (t :: ts) ha v hc
+    simp only [Ty.altAll, Bool.and_eq_true] at ha
+    simp only [conformsAny, Bool.or_eq_true] at hc
+    simp only [validateU]
+    cases hv : validate I t v with
+    | ok w => exact ⟨w, rfl, alt_eq I hI t ha.1 v w hv⟩
+    | error e =>
+      have := alt_err I hI t ha.1 v e hff hv
+      subst this
+      simp only
+      rcases hc with hc | hc
+      · obtain ⟨w, hw, _⟩ := conf_union I hI t (alt_unionDom t ha.1) v hc
+        rw [hv] at hw
+        exact absurd hw (by simp)
+      · exact conf_unionU I hI ts ha.2 v hc
+end
+
+/-! ### the walk on configuration graphs -/
+
+theorem hasFail_append (a b : List Item) : hasFail (a ++ b) = (hasFail a || hasFail b) := by
+  simp [hasFail]
+
+theorem hasFail_map_visit (l : List Nat) : hasFail (l.map Item.visit) = false := by
+  induction l with
+  | nil => rfl
+  | cons x l ih => simpa using ih
+
+theorem hasFail_argItems (d d' : Bool) (a : ArgDecl) (v : Option PyVal) :
+    hasFail (argItems d a v) = hasFail (argItems d' a v) := by
+  cases v with
+  | none => simp [argItems]
+  | some v => cases v <;> simp [argItems, hasFail_map_visit]
+
+theorem hasFail_argsItems (d d' : Bool) : ∀ (as : List ArgDecl) (vs : List (Option PyVal)),
+    hasFail (argsItems d as vs) = hasFail (argsItems d' as vs)
+  | [], _ => by simp [argsItems]
+  | a :: as, [] => by
+    simp only [argsItems, hasFail_append]
+    rw [hasFail_argItems d d', hasFail_argsItems d d' as []]
+  | a :: as, v :: vs => by
+    simp only [argsItems, hasFail_append]
+    rw [hasFail_argItems d d', hasFail_argsItems d d' as vs]
+
+theorem hasFail_nodeItems (d d' : Bool) (g : Graph) (n : Nat) :
+    hasFail (nodeItems d g n) = hasFail (nodeItems d' g n) := by
+  unfold nodeItems
+  cases g.nodes[n]? with
+  | none => rfl
+  | some nd => simp only [hasFail_append]; rw [hasFail_argsItems d d']
+
+theorem nodeMissing_eq (I : Impl) (g : Graph) (n : Nat) : nodeMissing g n = hasFail (nodeItems I.deepValidate g n) :=
+  hasFail_nodeItems _ _ g n
+
+theorem succs_deep (I : Impl) (h : I.deepValidate = true) (g : Graph) : succs I g = allSuccs g := by
+  funext n; simp [succs, allSuccs, h]
+
+/-! ### `ConfigInformation.set` -/
+
+theorem setArg_cases {I : Impl} {a : ArgDecl} {v w : PyVal} (h : setArg I a v = .ok w) :
+    (v = .none ∧ w = .none ∧ a.required = false) ∨ (v ≠ .none ∧ validate I a.ty.stripOpt v = .ok w) := by
+  unfold setArg at h
+  by_cases hg : (a.generator || a.constant) = true
+  · simp [hg] at h
+  · simp only [hg] at h
+    cases v with
+    | none =>
+      left
+      by_cases hr : a.required = true
+      · simp [hr] at h
+      · simp [hr] at h; exact ⟨rfl, h.symm, by simpa using hr⟩
+    | _ => right; exact ⟨by simp, h⟩
+
+theorem conforms_of_stripOpt {t : Ty} {w : PyVal} (h : conforms t.stripOpt w = true) : conforms t w = true := by
+  cases t with
+  | opt t => simp only [Ty.stripOpt] at h; rw [conforms_opt]; simp [h]
+  | _ => simpa [Ty.stripOpt] using h
+
+theorem unionFree_stripOpt {t : Ty} (h : t.unionFree = true) : t.stripOpt.unionFree = true := by
+  cases t <;> simp_all [Ty.stripOpt, Ty.unionFree]
+
+theorem cfgFree_stripOpt {t : Ty} (h : t.cfgFree = true) : t.stripOpt.cfgFree = true := by
+  cases t <;> simp_all [Ty.stripOpt, Ty.cfgFree]
+
+theorem set_sound_aux (I : Impl) (a : ArgDecl) (v w : PyVal)
+    (hU : I.unionDictNone = false ∨ a.ty.unionFree = true) (hC : I.cfgNoneOk = false ∨ a.ty.cfgFree = true)
+    (h : setArg I a v = .ok w) : conforms a.ty w = true ∨ (w = .none ∧ a.required = false) := by
+  rcases setArg_cases h with ⟨_, hw, hr⟩ | ⟨_, hv⟩
+  · exact Or.inr ⟨hw, hr⟩
+  · exact Or.inl (conforms_of_stripOpt
+      (validate_sound_aux I a.ty.stripOpt (hU.imp_right unionFree_stripOpt) (hC.imp_right cfgFree_stripOpt) v w hv))
+
+theorem vCfg_conf_of_ne_none {I : Impl} {c : Nat} {v w : PyVal} (hv : v ≠ .none) (h : vCfg I c v = .ok w) :
+    conforms (.cfg c) w = true := by
+  unfold vCfg at h
+  split at h
+  · exact absurd rfl hv
+  · split at h
+    · simp at h; subst h; simp [conforms, *]
+    · simp at h
+  · simp at h
+
+theorem set_sound_top_cfg (I : Impl) (a : ArgDecl) (c : Nat) (hc : a.ty.stripOpt = .cfg c) (v w : PyVal)
+    (h : setArg I a v = .ok w) : conforms a.ty w = true ∨ (w = .none ∧ a.required = false) := by
+  rcases setArg_cases h with ⟨_, hw, hr⟩ | ⟨hne, hv⟩
+  · exact Or.inr ⟨hw, hr⟩
+  · rw [hc] at hv
+    simp only [validate] at hv
+    exact Or.inl (conforms_of_stripOpt (by rw [hc]; exact vCfg_conf_of_ne_none hne hv))
+
+theorem set_id_aux (I : Impl) (a : ArgDecl) (hw : a.generator = false ∧ a.constant = false)
+    (hU : a.ty.unionFree = true) (v : PyVal) (hc : conforms a.ty v = true) (hn : v = .none → a.required = false) :
+    setArg I a v = .ok v := by
+  unfold setArg
+  simp only [hw.1, hw.2, Bool.or_self, Bool.false_eq_true, if_false]
+  have key : v ≠ .none → validate I a.ty.stripOpt v = .ok v := by
+    intro hne
+    apply validate_id_aux I _ (unionFree_stripOpt hU)
+    cases hty : a.ty with
+    | opt t =>
+      rw [hty, conforms_opt] at hc
+      cases v <;> simp_all [Ty.stripOpt]
+    | _ => rw [hty] at hc; simpa [Ty.stripOpt] using hc
+  cases v with
+  | none => simp [hn rfl]
+  | _ => exact key (by simp)
+
+/-! ### `validateFrom` / `validateGraph` -/
+
+theorem validateFrom_fst (I : Impl) (g : Graph) (vis : List Nat) (root : Nat) :
+    (validateFrom I g vis root).1 = (walkNode (nodeItems I.deepValidate g) (g.nodes.length + 1) vis root).1 := by
+  unfold validateFrom
+  simp only
+  split <;> rfl
+
+theorem validateFrom_ok {I : Impl} {g : Graph} {vis : List Nat} {root : Nat} (h : (validateFrom I g vis root).1 = .ok) :
+    walkNode (nodeItems I.deepValidate g) (g.nodes.length + 1) vis root = (.ok, (validateFrom I g vis root).2) := by
+  have h1 := validateFrom_fst I g vis root
+  rw [h] at h1
+  unfold validateFrom
+  simp only
+  rw [← h1]
+  simp only [bne_self_eq_false, Bool.and_false, Bool.false_eq_true, if_false]
+  generalize walkNode (nodeItems I.deepValidate g) (g.nodes.length + 1) vis root = r at h1
+  obtain ⟨o, v⟩ := r
+  simp only at h1
+  rw [← h1]
+
+theorem validateFrom_reset {I : Impl} {g : Graph} {vis : List Nat} {root : Nat} (hI : I.resetOnFail = true)
+    (h : (validateFrom I g vis root).1 ≠ .ok) : (validateFrom I g vis root).2 = vis := by
+  have h1 := validateFrom_fst I g vis root
+  unfold validateFrom at h ⊢
+  simp only at h ⊢
+  split
+  · rfl
+  · rename_i hc
+    simp only [hI, Bool.true_and, bne_iff_ne, ne_eq, Decidable.not_not] at hc
+    rw [if_neg (by simp [hI, hc])] at h
+    exact absurd hc h
+
+theorem validateFrom_ok_spec (I : Impl) (g : Graph) (vis : List Nat) (hinv : FlagsOk I g vis) (root : Nat)
+    (h : (validateFrom I g vis root).1 = .ok) :
+    (∀ n, Reach (succs I g) root n → nodeMissing g n = false) ∧ FlagsOk I g (validateFrom I g vis root).2 := by
+  have hw := validateFrom_ok h
+  generalize (validateFrom I g vis root).2 = vis' at hw
+  obtain ⟨hroot, hsub, hcl⟩ := walkNode_ok (nodeItems I.deepValidate g) _ vis root vis' hw
+  have key : FlagsOk I g vis' := by
+    intro m hm
+    rcases hcl m hm with h0 | ⟨hf, hk⟩
+    · exact ⟨(hinv m h0).1, fun k hk => hsub ((hinv m h0).2 k hk)⟩
+    · exact ⟨by rw [nodeMissing_eq I]; exact hf, hk⟩
+  refine ⟨?_, key⟩
+  intro n hr
+  have : n ∈ vis' := by
+    induction hr with
+    | refl => exact hroot
+    | step _ hc ih => exact (key _ ih).2 _ hc
+  exact (key n this).1
+
+theorem flagsOk_nil (I : Impl) (g : Graph) : FlagsOk I g [] := by intro m hm; simp at hm
+
+theorem finds_missing_aux (I : Impl) (g : Graph) (root n : Nat)
+    (hr : Reach (succs I g) root n) (hm : nodeMissing g n = true) : validateGraph I g root ≠ .ok := by
+  intro hok
+  have := (validateFrom_ok_spec I g [] (flagsOk_nil I g) root hok).1 n hr
+  rw [hm] at this
+  exact absurd this (by simp)
+
+theorem accepts_complete_aux (I : Impl) (g : Graph) (root : Nat)
+    (hwf : ∀ n, n < g.nodes.length → ∀ m ∈ succs I g n, m < g.nodes.length) (hroot : root < g.nodes.length)
+    (hc : ∀ n, Reach (succs I g) root n → nodeMissing g n = false) : validateGraph I g root = .ok := by
+  unfold validateGraph
+  rw [validateFrom_fst]
+  generalize hres : walkNode (nodeItems I.deepValidate g) (g.nodes.length + 1) [] root = res
+  obtain ⟨o, vis'⟩ := res
+  cases o with
+  | ok => rfl
+  | missing =>
+    obtain ⟨k, hk, hf⟩ := walkNode_missing (nodeItems I.deepValidate g) _ [] root vis' hres
+    have := hc k hk
+    rw [nodeMissing_eq I, hf] at this
+    exact absurd this (by simp)
+  | fuel =>
+    have := (walkNode_fuel (nodeItems I.deepValidate g) g.nodes.length hwf (g.nodes.length + 1) [] root hroot
+      (by have := unv_le g.nodes.length []; omega)).1
+    rw [hres] at this
+    exact absurd rfl this
 
 end XpmVerif.Validate
